@@ -404,17 +404,25 @@ func (x *c02Exec) runGo() (bool, string) {
 			continue
 		}
 		r := x.res[u]
-		rm := proc.NewRootMonitor(nil, nil)
-		r.rm = rm
+		// R0: AddEventAndWait(ev, nil) creates the root monitor itself (triggering root events only:
+		// for a discarded event nothing comes back to look at)
+		nilRoot := plan.nilRoot && un.mode == 'w' && plan.cascs[un.ci].nodes[0].kind != 's'
+		var rm *engine.RootMonitor
 		atomic.StoreInt32(&r.started, 1)
-		st.mu.Lock()
-		st.bind(rm.ID(), u)
-		st.handed[u] = append(st.handed[u], rm)
-		st.mu.Unlock()
+		if !nilRoot {
+			rm = proc.NewRootMonitor(nil, nil)
+			r.rm = rm
+			st.mu.Lock()
+			st.bind(rm.ID(), u)
+			st.handed[u] = append(st.handed[u], rm)
+			st.mu.Unlock()
+		} else {
+			st.count("AddEventAndWait with nil monitor")
+		}
 		ev := c02Event(plan, un.ci, 0)
 		done := make(chan struct{})
 		hdone := make(chan struct{}, 8)
-		if un.mode == 'a' || !plan.noHandler {
+		if !nilRoot && (un.mode == 'a' || !plan.noHandler) {
 			rm.SetFinishHandler(func(p engine.Processor) {
 				atomic.AddInt64(&r.handler, 1)
 				hdone <- struct{}{}
@@ -427,7 +435,25 @@ func (x *c02Exec) runGo() (bool, string) {
 				st.mu.Lock()
 				st.goCasc[c02Goid()] = u
 				st.mu.Unlock()
-				if un.mode == 'w' {
+				if nilRoot {
+					gid := c02Goid()
+					st.mu.Lock()
+					st.expect[gid] = u
+					st.mu.Unlock()
+					m, err := proc.AddEventAndWait(ev, nil)
+					if err != nil || m == nil {
+						return
+					}
+					rm = m.RootMonitor()
+					r.rm = rm
+					st.mu.Lock()
+					delete(st.expect, gid)
+					if _, ok := st.rootOf[rm.ID()]; !ok {
+						st.bind(rm.ID(), u)
+					}
+					st.handed[u] = append(st.handed[u], rm)
+					st.mu.Unlock()
+				} else if un.mode == 'w' {
 					if _, err := proc.AddEventAndWait(ev, rm); err != nil {
 						return
 					}
@@ -736,7 +762,7 @@ func c02Run(payload string) string {
 			hf := fmt.Sprintf("handler=%d fin=%d/%d", atomic.LoadInt64(&r.handler), r.fin, r.handed)
 			if plan.ecal {
 				hf = "handler=- fin=-"
-			} else if plan.noHandler && un.mode == 'w' {
+			} else if (plan.noHandler || plan.nilRoot && plan.cascs[un.ci].nodes[0].kind != 's') && un.mode == 'w' {
 				hf = fmt.Sprintf("handler=- fin=%d/%d", r.fin, r.handed)
 			}
 			out = append(out, fmt.Sprintf("ret=1 early=%d %s errs=%s foreign=%d nil=%d", early, hf, e, r.foreign, nl))
